@@ -2,7 +2,7 @@
    Statements only; proofs in Proofs/FrameP.v, Proofs/CloseCodecP.v, Proofs/WriterP.v. *)
 From Coq Require Import List NArith ZArith Lia.
 From WS Require Import Base.Words Gen.Consts Gen.CloseCode Model.Mask Model.Frame Model.Proto Model.CloseCodec Model.Writer Model.RefDecoder
-  Proofs.FrameP Proofs.CloseCodecP Proofs.WriterP.
+  Proofs.FrameP Proofs.CloseCodecP Proofs.WriterP Proofs.RoundTripP.
 Import ListNotations.
 Open Scope N_scope.
 
@@ -22,6 +22,17 @@ Theorem C02_wf : forall (keys : nat -> key) (dz : list dzop -> list bytes) (cfg 
   wf_stream (wc_role cfg) (wc_co cfg) (map to_pf (w_out s)) = true.
 Proof. exact writer_conformant. Qed.
 Print Assumptions C02_wf.
+
+(* … and an independent decoder reassembles from those frames EXACTLY the messages written: one event per operation, in
+   order, of the same type; an uncompressed message carries the concatenated chunks; a compressed one carries everything
+   the compressor emitted for (writes…, flush) minus the 4-byte tail, starting from the retained history iff the writer
+   keeps its context — for every program incl. Close (after which only control frames appear), every configuration, key
+   supply and compressor behaviour; no message is left open *)
+Theorem C02_decodes : forall keys dz cfg prog, Forall ok_op prog ->
+  ref_events (map to_pf (w_out (w_run keys dz cfg prog))) = expected_events cfg dz prog /\
+  snd (reassemble None (map to_pf (w_out (w_run keys dz cfg prog)))) = None.
+Proof. exact writer_events. Qed.
+Print Assumptions C02_decodes.
 
 Theorem C02_hdr_roundtrip : forall h rest, wf_hdr h -> dec_hdr (enc_hdr h ++ rest) = DecOk h rest.
 Proof. exact dec_enc. Qed.
